@@ -10,12 +10,6 @@ Local Open Scope Z_scope.
    stream bytes (1..3 slots) under one of the keys, or purge of a key; ALL workloads of at most [len] operations, ALL
    crash points at write boundaries, both keys queried.
    ------------------------------------------------------------------------------------------------------------ *)
-Fixpoint split_n (P : Z) (ss : list session) (n : nat) : list (session * nat) :=
-  match ss with
-  | [] => []
-  | s :: r => (s, Nat.min n (nwrites P s)) :: split_n P r (n - nwrites P s)
-  end.
-
 Definition completed_b (P : Z) (ss : list session) (n : nat) (s : session) : bool :=
   existsb (fun sm => (s_obj (fst sm) =? s_obj s) && (snd sm =? nwrites P (fst sm))%nat) (split_n P ss n).
 
